@@ -69,7 +69,7 @@ int vd_cmp_main(int argc, char **argv)
     for (k = 0; k < argc; k++) if (!strcmp(argv[k], "--stats") && k + 1 < argc) stats = argv[k + 1];
     hooks.malloc_fn = al_malloc; hooks.free_fn = al_free; cJSON_InitHooks(&hooks);
     vd_install_handlers();
-    deep_compare_cases();
+    VD.curline = (char*)"# driver-built cases: deep arrays through cJSON_Compare"; deep_compare_cases(); VD.curline = NULL;
     while ((len = getline(&line, &cap, stdin)) > 0 || (len < 0 && errno == EINTR && !feof(stdin) && (clearerr(stdin), 1))) {
         char *copy; jv *v; cJSON *a, *b; int cs, csv, exp, variant; char why[256] = "";
         if (len <= 0) continue;
